@@ -103,17 +103,51 @@ def compare(chk, G, broken, allowed, spec, obs, label):
     if len(set(loaded)) != len(loaded) or len(set(parsed)) != len(parsed) or len(set(compiled)) != len(compiled):
         chk.violation("C10|twice", "graph %s: a module is loaded, parsed or compiled more than once" % key, payload)
         return
+    if kind == "ok":
+        reach = set(spec["loaded"])          # on success the specification loads exactly the reachable modules
+        if set(loaded) != reach or set(parsed) != reach or set(compiled) != reach:
+            chk.violation("C10|not-exactly-reachable", "graph %s: loaded %s parsed %s compiled %s, reachable %s" % (
+                key, sorted(loaded), sorted(parsed), sorted(compiled), sorted(reach)), payload)
+            return
+        if compiled not in allowed:
+            chk.violation("C10|compile-order", "graph %s: compile order %s is not a topological order of the import graph (allowed: %s)" % (
+                key, compiled, allowed[:4]), payload)
+            return
     if loaded != spec["loaded"] or parsed != spec["parsed"] or valids != spec["valids"]:
-        chk.violation("C10|calls", "graph %s: call sequence load=%s parse=%s is_valid=%s, specification load=%s parse=%s is_valid=%s" % (
-            key, loaded, parsed, valids, spec["loaded"], spec["parsed"], spec["valids"]), payload)
-        return
-    if kind == "ok" and compiled not in allowed:
-        # which import is compiled too late?
-        chk.violation("C10|compile-order", "graph %s: compile order %s is not a topological order of the import graph (allowed: %s)" % (
-            key, compiled, allowed[:4]), payload)
-        return
+        chk.drift("C10|calls", "exploration order differs from Loader.tla, e.g. graph %s: load=%s is_valid=%s, specification load=%s is_valid=%s" % (
+            key, loaded, valids, spec["loaded"], spec["valids"]))
     if kind != "ok" and kind in ("cycle", "missing", "syntax") and compiled:
-        chk.violation("C10|compile-before-error", "graph %s: modules compiled although loading fails with %s" % (key, kind), payload)
+        chk.drift("C10|compile-before-error", "graph %s: modules compiled before loading fails with %s" % (key, kind))
+
+
+def obs_record(G, broken, obs):
+    calls = obs["calls"]
+    if obs["result"]["ok"]:
+        kind, target = "ok", ""
+    else:
+        kind, target = classify_error(obs["result"]["error"])
+    return {"G": G, "broken": sorted(broken), "kind": kind, "target": target,
+            "loaded": [name(c[1]) for c in calls if c[0] == "load"],
+            "parsed": [name(c[1]) for c in calls if c[0] == "parse"],
+            "valids": [name(c[1]) for c in calls if c[0] == "is_valid"],
+            "compiled": [name(c[1]) for c in calls if c[0] == "compile"]}
+
+
+def judge_observations(chk, recs, label):
+    """TLC evaluates the specification's property definitions on the observed outcomes."""
+    if not recs:
+        return
+    path = os.path.join(workdir(), "loader_obs_%s.ndjson" % label)
+    with open(path, "w") as f:
+        for r in recs:
+            f.write(json.dumps(r) + "\n")
+    r = run_tlc("LoaderTrace", "LoaderObs.cfg", workers=8, timeout=1800, env_extra={"OBS": path, "TRACE": path}, xmx="4g")
+    chk.add_tlc(r)
+    if not r.ok:
+        chk.violation("C10|observed-outcome", "an observed outcome of the real loader violates Verdict/ExactlyOnce/ImportsFirst (TLC monitor, %s)" % label,
+                      {"tlc": (r.violation or "")[:3000]})
+    else:
+        chk.cov["traces_validated_against_impl"] += len(recs)
 
 
 def random_graph(rng, n):
@@ -153,18 +187,12 @@ def validate_traces(chk, traces, label):
                 tags=("REJECTED",), java_opts=["-Xss1g", "-Dtlc2.tool.queue.IStateQueue=StateDeque"], xmx="4g")
     chk.add_tlc(r)
     if not r.ok:
-        rej = r.lines.get("REJECTED", [{}])[0]
-        # find the run the rejected event belongs to
-        at = rej.get("at", 0)
-        pos = 0
-        bad = None
-        for ev in traces:
-            if pos < at <= pos + len(ev):
-                bad = ev
-                break
-            pos += len(ev)
-        chk.violation("C10|trace-rejected", "recorded call sequence is not a behaviour of Loader.tla (first unmatched event %s)" % json.dumps(rej.get("event")),
-                      {"rejected": rej, "run": bad, "tlc": (r.violation or "")[:1500]})
+        if r.postcondition_failed or "REJECTED" in r.lines:
+            rej = r.lines.get("REJECTED", [{}])[0]
+            chk.drift("C10|trace-rejected", "a recorded call sequence is not a behaviour of Loader.tla's exploration order (first unmatched event %s)" % json.dumps(rej.get("event")))
+        else:
+            chk.violation("C10|trace-invariant", "a recorded call sequence violates an invariant of Loader.tla",
+                          {"tlc": (r.violation or "")[:3000]})
     else:
         chk.cov["traces_validated_against_impl"] += len(traces)
     chk.notes.setdefault("trace_events", {})[label] = n
@@ -206,6 +234,7 @@ def run(tier):
     obs = run_oalv_parallel("load", cases, jobs=12)
     nontrivial = 0
     traces = []
+    obs_recs = []
     for (g, label), o in zip(meta, obs):
         compare(chk, g["G"], g["broken"], g["allowed"], g["spec"], o, label)
         if label == "canonical":
@@ -213,12 +242,15 @@ def run(tier):
                 nontrivial += 1
             if o.get("outcome") == "ok":
                 traces.append(events_of(g["G"], g["broken"], o))
+        if o.get("outcome") == "ok":
+            obs_recs.append(obs_record(g["G"], g["broken"], o))
     chk.cov["evaluations"] = len(cases)
     chk.cov["distinct_nontrivial"] = nontrivial
     chk.cov["traces_validated_against_impl"] += len(cases)
     if keys:
         g = groups[keys[len(keys) // 2]]
         chk.sample({"graph": g["G"], "spec_kind": g["spec"]["kind"], "spec_loaded": g["spec"]["loaded"], "allowed_compile_orders": g["allowed"][:3]})
+    judge_observations(chk, obs_recs, "family")
     # (T) trace validation: a sample of the family and larger random graphs
     rng.shuffle(traces)
     fam = traces[:400 if tier == "quick" else 3000]
@@ -233,6 +265,7 @@ def run(tier):
         big_cases.append(render(G, set(), rng))
     big_obs = run_oalv_parallel("load", big_cases, jobs=12)
     big_traces = []
+    big_obs_recs = []
     for G, o in zip(big_G, big_obs):
         if o.get("outcome") == "skipped":
             continue
@@ -240,6 +273,8 @@ def run(tier):
             chk.violation("C10|crash|%s" % o.get("outcome"), "module::load %s on a random graph" % o.get("outcome"), {"G": G, "obs": o})
             continue
         big_traces.append(events_of(G, set(), o))
+        big_obs_recs.append(obs_record(G, set(), o))
+    judge_observations(chk, big_obs_recs, "random")
     if big_traces:
         validate_traces(chk, big_traces, "random")
         chk.sample({"random_graph": big_G[0], "trace_head": big_traces[0][1:8]})
